@@ -361,6 +361,10 @@ func Run(r *common.Run) error {
 				}
 				runWake(r, false)
 				runWake(r, true)
+			case "multi":
+				for _, carrier := range []string{"iq", "message"} {
+					runMulti(r, carrier, parseMultiOps(f[2]), "replay")
+				}
 			case "readers":
 				k, _ := strconv.Atoi(f[2])
 				for _, ev := range []string{"c", "C"} {
@@ -417,6 +421,19 @@ func Run(r *common.Run) error {
 			setCarrier(ops, carrier == "message")
 			runRecv(r, c.maxbuf, carrier, ops, "recv-corpus")
 		}
+	}
+	// several streams on one handler, session ids used again
+	nm := 0
+	for _, c := range multiCorpus() {
+		for _, carrier := range []string{"iq", "message"} {
+			r.Mark("case multi-corpus %d", nm)
+			nm++
+			runMulti(r, carrier, c, "multi-corpus")
+		}
+	}
+	for i := 0; i < r.Pick(150, 2500) && len(r.Failures) < 60 && r.Hist["problem"] < 25; i++ {
+		r.Mark("case multi-random %d", i)
+		runMulti(r, []string{"iq", "message"}[r.Rnd.Intn(2)], randMulti(r.Rnd), "multi-random")
 	}
 	r.Mark("case wake 0")
 	runWake(r, false)
